@@ -48,10 +48,21 @@ def _sk_subsumed(need, have):
     return True
 
 
+_NEG = {"Ge": "Lt", "Gt": "Le", "Le": "Gt", "Lt": "Ge", "Eq": "Ne", "Ne": "Eq"}
+
+
+def _canon(g):
+    """one spelling per comparison: `Ge(a,b)==[False]` is `Lt(a,b)==[True]` (an if / else with the branches swapped)"""
+    m = re.match(r"^(Ge|Gt|Le|Lt|Eq|Ne)\((.*)\)==\[False\]$", g)
+    if m:
+        return "%s(%s)==[True]" % (_NEG[m.group(1)], m.group(2))
+    return g
+
+
 def guards_hold(recorded, current):
     """every recorded condition is still among the current ones — literally, or after dropping the spelling of
     arguments (a renamed loop variable changes `Lt(i,len)` into `Lt(idx,len)`)"""
-    need, have = set(recorded), set(current)
+    need, have = {_canon(g) for g in recorded}, {_canon(g) for g in current}
     # "an iteration before this point has run to its end" (`next()` answered None) constrains no value the site uses: a loop
     # turned into an iterator adaptor (`for_each`, `collect`) has no such edge any more
     need = {g for g in need if not re.match(r"^Iterator::next\(.*\) in \['None'\]$", g)}
